@@ -245,7 +245,7 @@ pub fn layout_sources(opts: &Opts, rng: &mut Rng) -> Vec<(String, Layout, Vec<Ke
   for (name, l) in h_layouts::corpus_layouts().into_iter().chain(h_layouts::readme_layouts()).chain(h_layouts::builtin_layouts()) {
     for a in h_layouts::alphabets_for(&l, rng, 3, 6) { res.push((name.clone(), l.clone(), a)); }
   }
-  let n = opts.num("random", if opts.thorough() { 3000 } else { 150 });
+  let n = opts.num("random", if opts.thorough() { 1000 } else { 150 });
   for i in 0..n {
     let mut l = h_layouts::random_layout(rng, if i % 3 == 0 { Flavor::Absorbing } else { Flavor::Plain });
     // make Special repeats frequent: they are what the timer is about
@@ -270,7 +270,7 @@ pub fn run(opts: &Opts) -> i32 {
   let out_dir = opts.get_or("out", "/verif/harness/tmp/loop").to_string();
   let _ = std::fs::create_dir_all(&out_dir);
   let sources = layout_sources(opts, &mut rng);
-  let per_layout = opts.num("schedules", if thorough { 60 } else { 12 }) as usize;
+  let per_layout = opts.num("schedules", if thorough { 40 } else { 12 }) as usize;
   let mut lean = Lean::start();
 
   let mut cases = 0u64;
@@ -299,7 +299,7 @@ pub fn run(opts: &Opts) -> i32 {
       let tablet = rng.chance(1, 2);
       let hlen = rng.range(1, 10);
       let hist = random_history(&mut rng, alphabet, hlen);
-      let dbl = thorough && rng.chance(1, 400);
+      let dbl = thorough && rng.chance(1, 2500);
       let schedule = random_schedule(&mut rng, &hist, tablet, dbl);
       let env_seed = rng.next();
       let r = run_real(layout, &schedule, env_seed, None, tablet);
@@ -328,7 +328,7 @@ pub fn run(opts: &Opts) -> i32 {
       lean.expect(3, idx as u64, format!("LOOPMON {} {} {} {}", if r.script.is_empty() { "-".to_string() } else { r.script.join(",") }, if r.calls.is_empty() { "-".to_string() } else { r.calls.join(";") }, r.status, r.tol), "ok".to_string());
 
       // C20: a failure injected at each individual driver call in turn (quick: a sample of the indices)
-      let step = if thorough { 1 } else { std::cmp::max(1, n_calls / 4) };
+      let step = if thorough { std::cmp::max(1, n_calls / 12) } else { std::cmp::max(1, n_calls / 4) };
       let mut k = (si % step.max(1)) as usize;
       while k < n_calls {
         let rf = run_real(layout, &schedule, env_seed, Some(k), tablet);
